@@ -755,7 +755,8 @@ class LayoutFn:
                     if ini.get("k") == "Ref" and ini.get("d") in self.cursors:
                         st.cur[d] = list(st.cur[ini["d"]])
                     else:
-                        st.cur[d] = [None, self.sym(v["init"], st)]
+                        aff = self.affine_cursor(v["init"], st)
+                        st.cur[d] = aff if aff is not None else [None, self.sym(v["init"], st)]
                 elif d in self.accs:
                     st.acc[d] = self.sym(v["init"], st) if v.get("init") is not None else sp.Integer(0)
                 elif d in self.roots and v.get("init") is not None:
@@ -834,6 +835,10 @@ class LayoutFn:
                 if r.get("k") == "Ref" and r.get("d") in self.cursors:
                     st.cur[d] = list(st.cur[r["d"]])
                     return
+                aff = self.affine_cursor(r, st)
+                if aff is not None:
+                    st.cur[d] = aff
+                    return
                 self.do_align(d, r, st, s.get("l"))
                 return
             raise Unknown("cursor update '%s'" % render(s))
@@ -856,6 +861,37 @@ class LayoutFn:
             return
         if self.relevant(s):
             raise Unknown("assignment '%s' at line %s" % (render(s)[:80], s.get("l")))
+
+    def affine_cursor(self, r, st):
+        """r = <cursor> +/- <counts> (sums and differences only, every cursor in it counting the same unit) -> [unit, position], else None:
+        the position another cursor has reached, shifted by a number of elements of the same unit"""
+        r0 = r
+        while r0 is not None and (r0.get("k") == "Cast" or (r0.get("k") in ("Construct", "TempObj") and len(r0.get("a", [])) == 1)):
+            r0 = r0.get("e") if r0.get("k") == "Cast" else r0["a"][0]
+        if r0 is None or r0.get("k") != "Bin" or r0.get("op") not in ("+", "-"):
+            return None
+        refs = []
+
+        def ok(x):
+            x = strip_cast(x)
+            while x is not None and x.get("k") in ("Construct", "TempObj") and len(x.get("a", [])) == 1:
+                x = strip_cast(x["a"][0])
+            if x is None:
+                return False
+            if x.get("k") == "Bin":
+                if x.get("op") in ("+", "-"):
+                    return ok(x["lhs"]) and ok(x["rhs"])
+                return not any(y.get("k") == "Ref" and y.get("d") in self.cursors for y in walk(x)) and x.get("op") == "*"
+            if x.get("k") == "Ref" and x.get("d") in self.cursors:
+                refs.append(x["d"])
+                return True
+            return not any(y.get("k") == "Ref" and y.get("d") in self.cursors for y in walk(x))
+        if not ok(r0) or len(refs) != 1:
+            return None
+        units = set(st.cur[c_][0] for c_ in refs if c_ in st.cur)
+        if len(units) != 1 or refs[0] not in st.cur:
+            return None
+        return [units.pop(), self.sym(r0, st)]
 
     def do_align(self, d, r, st, line):
         """cursor = (cursor * sizeof(A) + K) / sizeof(B)"""
@@ -1000,6 +1036,25 @@ class LayoutFn:
                 continue
             if self.relevant(b):
                 raise Unknown("statement '%s' in the loop at line %s" % (render(b)[:80], line))
+        # several segments filled by one (fused) loop: their order in the stream is the order of their offsets, not of the statements
+        slots = [i_ for i_, p_ in enumerate(pending) if p_[0] in ("store", "load", "loadvec")]
+        if len(slots) > 1:
+            segs_ = [pending[i_] for i_ in slots]
+            n_sym = symbol(bound_c)
+            ordered = []
+            rest = list(segs_)
+            while rest:
+                pick = None
+                for p_ in rest:
+                    if not any(q_ is not p_ and q_[1] == p_[1] and seq(q_[2] + n_sym - p_[2]) for q_ in rest):
+                        pick = p_
+                        break
+                if pick is None:
+                    pick = rest[0]
+                ordered.append(pick)
+                rest.remove(pick)
+            for i_, p_ in zip(slots, ordered):
+                pending[i_] = p_
         # finalise
         advc = {}
         for cd, x in adv.items():
@@ -1206,62 +1261,77 @@ def header_beliefs(R):
         p = par.get(id(n))
         if p is not None and p.get("k") == "Assign" and strip_cast(p["lhs"]) is n:
             continue
-        bel = None
-        x, child = n, n
-        wrapped = False
-        while True:
-            p = par.get(id(x))
-            if p is None:
-                break
-            pk = p.get("k")
-            if pk == "Call" and strip_targs(p.get("callee", "")) == "FEAT::assertion":
-                e = strip_cast(p["a"][0])
-                if e.get("k") == "Bin" and e.get("op") == "==":
-                    sides = [e["lhs"], e["rhs"]]
-                    mine = [sd for sd in sides if any(y is n for y in walk(sd))]
-                    other = [sd for sd in sides if sd not in mine]
-                    if len(mine) == 1 and len(other) == 1:
-                        o = strip_cast(other[0])
-                        if strip_cast(mine[0]) is n:
-                            bel = ("equals", R.canon(o), p.get("l"))
-                        elif o.get("k") == "Ref" and o.get("qn"):
-                            bel = ("describes", o["qn"].rsplit("::", 1)[0], p.get("l"))
-                break
-            if pk == "If" and any(y is n for y in walk(p.get("c"))):
-                so = [y for y in walk(p["c"]) if y.get("k") == "SizeOf"]
-                if len(so) == 1:
-                    bel = ("describes-type", so[0].get("type"), p.get("l"))
-                break
-            if pk == "For" and any(y is n for y in walk(p.get("c"))):
-                targets = set()
-                for y in walk(p.get("body")):
-                    if y.get("k") == "MCall" and y.get("n") == "push_back":
-                        t_ = "#" + R.canon(y.get("obj"))
-                        targets.add(COUNT_INVARIANT.get(t_, t_))
-                    if y.get("k") == "Assign":
-                        l = strip_cast(y["lhs"])
-                        if l.get("k") == "OpCall" and l.get("op") == "[]" and strip_cast(l["a"][0]).get("d") in R.segvec:
-                            targets.add("local")
-                if targets == {"local"}:
-                    bel = ("extent", None, p.get("l"))
-                elif len(targets) == 1:
-                    bel = ("count", sorted(targets)[0], p.get("l"))
-                break
-            if pk == "Decl":
-                bel = ("flows", None, p.get("l"))
-                break
-            if pk == "Var":
-                vt = fn.type(p.get("t")) or ""
-                if vt.startswith("std::vector"):
-                    bel = ("extent", None, p.get("l"))
-                else:
+        def climb(n0, depth=0):
+            """what the context of one use of the header word (or of a constant local holding it) says about it -> [beliefs]"""
+            bel = None
+            x = n0
+            while True:
+                p = par.get(id(x))
+                if p is None:
+                    break
+                pk = p.get("k")
+                if pk == "Call" and strip_targs(p.get("callee", "")) == "FEAT::assertion":
+                    e = strip_cast(p["a"][0])
+                    if e.get("k") == "Bin" and e.get("op") == "==":
+                        sides = [e["lhs"], e["rhs"]]
+                        mine = [sd for sd in sides if any(y is n0 for y in walk(sd))]
+                        other = [sd for sd in sides if sd not in mine]
+                        if len(mine) == 1 and len(other) == 1:
+                            o = strip_cast(other[0])
+                            if strip_cast(mine[0]) is n0:
+                                bel = ("equals", R.canon(o), p.get("l"))
+                            elif o.get("k") == "Ref" and o.get("qn"):
+                                bel = ("describes", o["qn"].rsplit("::", 1)[0], p.get("l"))
+                    break
+                if pk == "If" and any(y is n0 for y in walk(p.get("c"))):
+                    so = [y for y in walk(p["c"]) if y.get("k") == "SizeOf"]
+                    if len(so) == 1:
+                        bel = ("describes-type", so[0].get("type"), p.get("l"))
+                    break
+                if pk == "For" and any(y is n0 for y in walk(p.get("c"))):
+                    targets = set()
+                    for y in walk(p.get("body")):
+                        if y.get("k") == "MCall" and y.get("n") == "push_back":
+                            t_ = "#" + R.canon(y.get("obj"))
+                            targets.add(COUNT_INVARIANT.get(t_, t_))
+                        if y.get("k") == "Assign":
+                            l = strip_cast(y["lhs"])
+                            if l.get("k") == "OpCall" and l.get("op") == "[]" and strip_cast(l["a"][0]).get("d") in R.segvec:
+                                targets.add("local")
+                    real = targets - {"local"}
+                    if targets == {"local"}:
+                        bel = ("extent", None, p.get("l"))
+                    elif len(real) == 1:
+                        # a fused loop may fill a local table besides the container's vector: the count belongs to the vector
+                        bel = ("count", sorted(real)[0], p.get("l"))
+                    break
+                if pk == "Decl":
                     bel = ("flows", None, p.get("l"))
-                break
-            if pk == "Assign" and strip_cast(p["lhs"]).get("d") in R.cursors:
-                bel = ("advance", None, p.get("l"))
-                break
-            x = p
-        out.setdefault(k, []).append(bel if bel is not None else ("?", render(par.get(id(n), n))[:80], n.get("l")))
+                    break
+                if pk == "Var":
+                    vt = fn.type(p.get("t")) or ""
+                    if vt.startswith("std::vector"):
+                        bel = ("extent", None, p.get("l"))
+                    elif depth < 3 and R.const_local(p.get("d")) and strip_cast(p.get("init")) is not None and any(y is n0 for y in walk(p.get("init"))) \
+                            and (strip_cast(p["init"]) is n0 or R.canon(p["init"]) == R.canon(n0)):
+                        # a named constant holding the header word: what its uses say
+                        sub = []
+                        for u in fn.nodes():
+                            if u.get("k") == "Ref" and u.get("d") == p.get("d"):
+                                sub.extend(climb(u, depth + 1))
+                        return sub or [("flows", None, p.get("l"))]
+                    else:
+                        bel = ("flows", None, p.get("l"))
+                    break
+                if pk == "Assign" and strip_cast(p["lhs"]).get("d") in R.cursors:
+                    bel = ("advance", None, p.get("l"))
+                    break
+                x = p
+            if bel is None and depth > 0:
+                return [("flows", None, n0.get("l"))]       # a use of the named constant in a condition / expression
+            return [bel] if bel is not None else [("?", render(par.get(id(n0), n0))[:80], n0.get("l"))]
+        out.setdefault(k, []).extend(climb(n))
+
     return out
 
 
